@@ -666,6 +666,16 @@ func RuleTG(c *Ctx) {
 					if g := Callee(info, call); g != nil && g.Name() == "Get" && fieldSel(info, Recv(call), tagsF) {
 						continue
 					}
+					// a helper of the catalog that itself returns tags is judged on its own
+					// (it is one of the functions this loop visits)
+					if g := Callee(info, call); g != nil && recvNamedOf(g) == cat && c.P.Decl(g) != nil {
+						gs := g.Type().(*types.Signature)
+						if gs.Results().Len() >= 1 {
+							if gp, ok := gs.Results().At(0).Type().(*types.Pointer); ok && types.Identical(gp.Elem(), tagT) {
+								continue
+							}
+						}
+					}
 				}
 				// created here: must be stored with Tags.Set before being returned
 				stored := false
